@@ -262,9 +262,19 @@ package channel
 
 // ---- C07: Close closes the transport on every path ---------------------------------------------------------------------------
 
+// ch is only ever closed (by the goroutine that hands the done signal to the reader, once the hand-off is over - or at
+// once when the reader has exited already): a completed receive from it means exactly that. Errs is closed only then,
+// because a reader that is still running may be offering a read error on it (a send on a closed channel panics - F9).
+// The reader, for its part, offers the error only as an alternative to the done signal, so a close can always release it.
+//@ chanmode (*Channel).Close:ch signal
+//@ chanmode (*Channel).Close$1:ch signal
+//@ func (*Channel).Close$1 [C07]
+//@   requires ch != nil && !closed(ch)
+//@   modifies chan(ch), chan(c.done)
 //@ func (*Channel).Close [C07]
-//@   modifies implClosed, chan(c.Errs), alloc()
+//@   modifies implClosed, chan(c.Errs), chan(c.done), alloc()
 //@   ensures #transport-closed implClosed
+//@   at call! close#2 assert #the-error-channel-is-closed-only-once-the-reader-has-exited-or-taken-the-done-signal arg0 == c.Errs && (c.readLoopExited || closed(ch))
 
 // the two outer login functions race the login goroutine against a timer; their bodies are not verified (the
 // goroutine hand-off may legitimately deliver a nil result only after cancellation, which is a timing argument)
@@ -305,7 +315,7 @@ package channel
 // the failure cleanup of Open goes through the channel's own Close (which stops the reader and has the forced-close
 // fallback for a reader blocked in a transport read), not through the transport directly
 //@ func (*Channel).Open$1 [C07 C10]
-//@   modifies implClosed, chan(c.Errs), alloc()
+//@   modifies implClosed, chan(c.Errs), chan(c.done), alloc()
 //@   at call! channel.(*Channel).Close#1 assert #a-failed-open-is-cleaned-up-by-the-channels-own-close reterr != nil && recv == c
 //@   ensures #failed-open-closes-the-transport reterr != nil ==> implClosed
 
@@ -316,7 +326,7 @@ package channel
 //@   after call AuthenticateSSH#1 set loginOut = result.0
 //@   after call AuthenticateTelnet#1 set loginOut = result.0
 //@   at return assert [C10] #what-the-login-read-stays-available-to-the-first-operation result == nil && len(loginOut) > 0 ==> len(c.Q.queue) >= 1 && c.Q.queue[0] == loginOut
-//@   requires RI(c.Q) && c.Errs != c.Q.depthChan && c.PromptSearchDepth >= 0
+//@   requires RI(c.Q) && c.Errs != c.Q.depthChan && c.done != c.Q.depthChan && c.PromptSearchDepth >= 0
 //@   ensures #queue-invariant-kept RI(c.Q)
 //@   flows [C11] #login-password-goes-only-to-the-login-functions authData.Password only to AuthenticateSSH#1.arg0, AuthenticateTelnet#1.arg1
 //@   flows [C11] #passphrase-goes-only-to-the-login-function authData.PrivateKeyPassPhrase only to AuthenticateSSH#1.arg1
@@ -350,8 +360,8 @@ package channel
 // ---- C06 / C16: the reader loop -----------------------------------------------------------------------------------------
 // errsAtHead: ghost snapshot of the number of errors handed over so far, taken at the top of every iteration
 //@ ghost errsAtHead int
-//@ chanmode Channel.Errs count
-//@ func (*Channel).read [C06 C16]
+//@ chanmode Channel.Errs count,selectonly
+//@ func (*Channel).read [C06 C16 C07]
 //@   maintains RI(c.Q)
 //@   requires c.Errs != c.Q.depthChan
 //@   modifies c.readLoopExited, c.Q.queue, c.Q.depth, chan(c.Q.depthChan), chan(c.Errs), errsAtHead, chunk, alloc()
